@@ -7,8 +7,8 @@ import os
 from . import common as C
 
 SHARDS = 4
-FAMILIES = {"quick": [("hc:q", 1600), ("hc:closepend", 600)],
-            "thorough": [("hc:q", 40000), ("hc:closepend", 10000)]}
+FAMILIES = {"quick": [("hc:q", 4000), ("hc:closepend", 1500), ("hc:bridge", 800)],
+            "thorough": [("hc:q", 60000), ("hc:closepend", 20000), ("hc:bridge", 10000)]}
 
 
 def _worker(fam, seed, lo, hi, shard):
@@ -74,7 +74,11 @@ def monitor(sc):
         f = l.split("\t")
         if f[0] == "fault":
             return "harness monitor: " + "\t".join(f[1:])
-        if f[:2] == ["env", "do"]:
+        if f[0] == "br":
+            if len(f) < 6 or f[4] != f[5]:
+                return "operation %s over jhttp.Channel+Bridge returned %s, over a direct connection %s" % (
+                    f[3] if len(f) > 3 else "?", f[4] if len(f) > 4 else "?", f[5] if len(f) > 5 else "?")
+        elif f[:2] == ["env", "do"]:
             do[f[2]] = f[3]
         elif f[:2] == ["env", "send"] and f[2] not in ("ok", "closed"):
             return "Send returned an unexpected error: " + f[2]
@@ -94,7 +98,7 @@ def monitor(sc):
             closeret = True
         elif f[0] == "snap":
             snap = (int(f[1]), int(f[2]))
-            if closeret and snap[0] != snap[1]:
+            if (closeret or sc["fam"] == "hc:bridge") and snap[0] != snap[1]:
                 return "after Close returned %d response bodies were opened but %d closed" % snap
     return None
 
@@ -140,11 +144,11 @@ def judge(ctx, res, fam, logs, crashes, stats):
         for sc in scenarios(lp):
             stats["evals"] += 1
             body = "\n".join(sc["lines"][1:])
-            if "env\tsend\tok" in body and "env\tclose" in body:
+            if ("env\tsend\tok" in body and "env\tclose" in body) or "\nbr\t" in "\n" + body:
                 stats["distinct"].add(C.sha(fam + body))
             for l in sc["lines"]:
                 f = l.split("\t")
-                k = f[0] + (":" + f[1] if f[0] in ("env", "o") else "")
+                k = f[0] + (":" + f[1] if f[0] in ("env", "o") else "") + (":" + f[3].split(":")[0] if f[0] == "br" else "")
                 if f[:2] == ["env", "do"]:
                     k += ":" + f[3]
                 stats["kinds"][k] = stats["kinds"].get(k, 0) + 1
